@@ -1,6 +1,6 @@
 """Quake 1 / 2 / 3 status family: how the generic property runners drive it."""
 
-FAMILY = dict(
+FAMILY = dict(send_units=1, 
     name="quake", nargs=3, gen="quake", retries=2, port=0, decode_property="C05", entry="quake",
     describe=("Quake 1 / 2 / 3 status replies: every combination of the alternate variable spellings (one, the other, both, "
               "version absent), 0-20 other variables, 0-65 player lines, quoted and unquoted names / skins / addresses, names "
